@@ -317,6 +317,26 @@ class FileScanHelper:
                 ParserLogger.sync_on_next_call()
         return actual_tokens
 
+    @staticmethod
+    def __replace_file_contents(source_file: str, destination_file: str) -> None:
+        """
+        Replace the destination with a copy of the source without ever exposing a
+        partially written destination: copy next to the destination, then rename.
+        """
+        destination_path = os.path.realpath(destination_file)
+        with tempfile.NamedTemporaryFile(
+            dir=os.path.dirname(destination_path), prefix=".pymarkdown-", delete=False
+        ) as sibling_file:
+            sibling_name = sibling_file.name
+        try:
+            shutil.copyfile(source_file, sibling_name)
+            shutil.copymode(destination_path, sibling_name)
+            os.replace(sibling_name, destination_path)
+        except BaseException:
+            if os.path.exists(sibling_name):
+                os.remove(sibling_name)
+            raise
+
     # pylint: disable=too-many-arguments, too-many-locals
     def __process_file_fix_pass(
         self,
@@ -376,7 +396,7 @@ class FileScanHelper:
         if did_anything_get_fixed:
             if fix_debug and fix_file_debug:
                 print(f"Copy {temporary_line_file_name} to {next_file}")
-            shutil.copyfile(temporary_line_file_name, next_file)
+            self.__replace_file_contents(temporary_line_file_name, next_file)
         if fix_debug and fix_file_debug:
             print(f"Remove:{temporary_line_file_name}")
         os.remove(temporary_line_file_name)
